@@ -83,8 +83,42 @@ fn gen_session(seed: u64, idx: u64) {
     }));
 }
 
+/// (native only) `c16_miri --probes <seed> <n>`: a broad probe list for environment sweeps —
+/// every literal and strings of every token class (short and long) on all profiles.
+fn gen_probes(seed: u64, n: usize) {
+    let mut rng = simcore::Rng::derive(seed, 0, 1818);
+    let mut w = gen_soak_workload(&mut rng, 0, 4, false);
+    // plus long strings (many tokens) of every class mix
+    let all: Vec<usize> = (0..17).collect();
+    let base = w.pool.len();
+    for _ in 0..96 {
+        let mut s = String::new();
+        for _ in 0..2 + rng.usize_below(4) {
+            s.push_str(&gen_string(&mut rng, &all));
+        }
+        w.pool.push(s);
+    }
+    let mut lines = vec![];
+    for a in 0..w.pool.len() {
+        for profile in 0..4u8 {
+            let kind = if a >= base { 1 } else { rng.below(3) as u8 };
+            let b = rng.usize_below(w.pool.len());
+            lines.push(format!("{} {} {} 0 0 {} {}", profile, kind, if rng.chance(1, 2) { 0 } else { 1 }, simcore::hex(w.pool[a].as_bytes()), if kind == 2 { simcore::hex(w.pool[b].as_bytes()) } else { String::new() }));
+        }
+    }
+    for l in lines.iter().take(n) {
+        println!("{}", l);
+    }
+}
+
 fn main() {
     let args: Vec<String> = std::env::args().collect();
+    if args.get(1).map(|s| s.as_str()) == Some("--probes") {
+        let seed = args.get(2).and_then(|x| x.parse().ok()).unwrap_or(0);
+        let n = args.get(3).and_then(|x| x.parse().ok()).unwrap_or(2000);
+        gen_probes(seed, n);
+        return;
+    }
     if args.get(1).map(|s| s.as_str()) == Some("--gen") {
         let seed = args.get(2).and_then(|x| x.parse().ok()).unwrap_or(0);
         let idx = args.get(3).and_then(|x| x.parse().ok()).unwrap_or(0);
